@@ -167,6 +167,37 @@ Theorem C19_D17_reaped_behind_cut_witness :
 Proof. vm_compute. repeat split; discriminate. Qed.
 Print Assumptions C19_D17_reaped_behind_cut_witness.
 
+(** Audit 2, N1 (finding candidate, prototype docs/patches/bottom-region-taller-than-terminal.diff;
+    harness class 'bottom-region-taller-than-terminal-scrolls', reproduced on the real code): under
+    Bottom alignment last_line_count can EXCEED the terminal height and then every draw scrolls the
+    terminal by one row.  5x3 terminal, Bottom; a, b, c drawn, finished visibly and dropped (three kept
+    rows); d added and drawn; clear(); d.tick(); clear(); d.tick(): clear() adds the 3 kept rows to the
+    count (LineAdjust::Clear): 1 + 3 = 4 > 3, and the count stays 4; the first visible row of the
+    terminal moves down by one with every call although only blank rows and `d0` are written.  This
+    REFUTES "last_line_count <= H after every op" for Bottom alignment on the current tree. *)
+Definition n1_case : syscase :=
+  mkcase 5 3 [] None (ITerm None)
+    [(Some 10, FAndLeave, [PLit (t "a"); PPos], IHidden); (Some 10, FAndLeave, [PLit (t "b"); PPos], IHidden);
+     (Some 10, FAndLeave, [PLit (t "c"); PPos], IHidden); (Some 10, FAndLeave, [PLit (t "d"); PPos], IHidden)]
+    [(1000000000, OSetAlign Bottom); (2000000000, OInsert BEnd 0); (3000000000, OInsert BEnd 1);
+     (4000000000, OInsert BEnd 2); (5000000000, OTick 0); (6000000000, OTick 1); (7000000000, OTick 2);
+     (8000000000, OFinish 0 FAndLeave); (9000000000, OFinish 1 FAndLeave); (10000000000, OFinish 2 FAndLeave);
+     (11000000000, ODrop 0); (12000000000, ODrop 1); (13000000000, ODrop 2);
+     (14000000000, OInsert BEnd 3); (15000000000, OTick 3); (16000000000, OMClear); (17000000000, OTick 3);
+     (18000000000, OMClear); (19000000000, OTick 3)] [].
+
+Theorem C19_bottom_count_exceeds_height_refuted :
+  let counts := map (fun k => target_n (ms_target (s_mp (fst (run_sys 5 3 (case_init n1_case)
+                                                           (firstn k (c_ops n1_case)))))))
+                    [15; 16; 17; 18; 19]%nat in
+  let calls := snd (run_sys 5 3 (case_init n1_case) (c_ops n1_case)) in
+  let tops := map (fun k => t_top (run_ops 5 3 term_init (List.concat (firstn k calls))))
+                  [14; 15; 16; 17; 18; 19]%nat in
+  counts = [1; 4; 4; 4; 4]                       (* last_line_count after ops 15..19: 4 > H = 3 *)
+  /\ tops = [0; 1; 2; 3; 4; 5]%nat.              (* first visible row: one more row scrolled per call *)
+Proof. vm_compute. split; reflexivity. Qed.
+Print Assumptions C19_bottom_count_exceeds_height_refuted.
+
 (** hypotheses are satisfiable by a non-trivial history: a 2x3 terminal, a three-line template
     whose frame (1 + 2 + 1 = 4 rows) is taller than the terminal: only the leading lines are
     painted; after the message shrinks everything fits and is painted *)
